@@ -6,13 +6,36 @@ import subprocess
 
 ROOT = "/verif"
 
+COMMON_NOTE = "Trusted: Lean kernel + {propext, Classical.choice, Quot.sound}; Jamm/Model/Spec.lean and the statements in Jamm/Props; harness + driver glue; translators (tools/gen_all.py). Assumes no u64 wrap-around. "
+
 CLAIMED = {
     "C01": {
-        "category": "proof",
-        "technique": "Lean 4 theorems (reference-map laws; B+tree lookup/put/delete/cursor refinement to the sorted contents) + differential correspondence of every API outcome against the Lean specification",
-        "text": "Lean theorems, for all keys/values/trees: the reference is an ordered map; on every well-formed tree the model's point lookup, leaf insert/replace/delete and cursor equal the specification applied to the tree's in-order contents (Jamm/Props/C01.lean lists what is proved and what is still tied only by correspondence). The tie to the code is checked on every run: histories (random profiles and directed enumerations of delete ranges over 1/2/3-level trees, nested buckets, rollbacks, reopen) are executed on /repo built from the working tree and every outcome, every post-commit dump (same process and after reopen) is compared by the Lean driver with the specification.",
+        "category": "other",
+        "technique": "Lean 4 proofs of per-bucket refinement (lookup, cursor, in-transaction edits on every well-formed tree) + verified file checker run on the real bytes after every commit + differential correspondence of every API outcome against the Lean specification",
+        "text": "Proved in Lean, for all keys, values, trees and edit sequences (Jamm/Props/C01.lean): the reference is an ordered map; on every well-formed B+tree the model of Bucket::get and of the cursor return the reference's answer on the tree's in-order contents, any sequence of put/delete leaf edits equals the same sequence of reference-map operations and preserves well-formedness; the executable checker wfb is sound for well-formedness. NOT proved: that commit (rebalance/spill) turns a well-formed overlay into a well-formed file with the same contents; that step is decided per commit by running the verified checker and the contents comparison on the bytes the real code wrote (C05) — hence category other, not proof. Tie, checked on every run: histories (random profiles, directed enumerations of all delete ranges over 1/2/3-level trees with and without nested buckets, rollbacks, reopen, misuse of deleted handles) are executed on /repo built from the working tree and every call outcome and every post-commit dump (same process and after reopen) is compared by the Lean driver with the specification.",
         "design_ref": "DESIGN.md §5 C01, §3.1, §3.4–3.7",
-        "note": "Trusted: Lean kernel + {propext, Classical.choice, Quot.sound}; Spec.lean; harness + driver glue; commit (rebalance/spill) is modelled only through its specification (CommitSpec) which is evaluated, not proved — see DESIGN.md §6. Assumes no u64 wrap-around.",
+        "note": COMMON_NOTE + "Modelled, tied by correspondence only: search/cursor/leaf edits (their Lean models are exercised through the spec comparison), commit.",
+    },
+    "C05": {
+        "category": "other",
+        "technique": "independent file checker written in Lean (decoder + WF + page accounting), proved sound in Lean, executed on the real file bytes after every commit; plus DB::check and contents comparison with the specification",
+        "text": "After every commit of every generated history the harness snapshots the file and the Lean driver decodes it with the layout regenerated from /repo/src, chooses the header as the code does, unfolds every bucket tree, evaluates wfb (keys strictly ascending within and across pages, separators bound their subtrees, every element inside its run), and checks that reached runs + free-list run + free-list entries are exactly pages 2..numPages-1 with no page twice; the decoded contents must equal the specification's and DB::check must agree. Proved in Lean: wfb is sound for WF (so Layer Q theorems apply to the real file), the accounting comparison is exact (no duplicate, none missing, none out of range). Not proved: that commit always yields such a file (decided per commit instead).",
+        "design_ref": "DESIGN.md §5 C05, §3.2, §3.6",
+        "note": COMMON_NOTE + "The checker shares no code with jammdb; bytes outside defined ranges (padding, stale tails) are unconstrained by design.",
+    },
+    "C07": {
+        "category": "proof",
+        "technique": "Lean 4 theorems: any sequence of in-transaction leaf edits on a well-formed tree refines the reference map, and lookup/scan/seek/range on the edited tree (emptied leaves included) return the reference's answers; model tied to the code by read-after-every-operation differential runs",
+        "text": "Proved for every well-formed starting tree, every sequence of puts and deletes and every key / bound pair (Jamm/Props/C07.lean): contents = reference contents after the same operations, tree stays well-formed, point lookup, full scan, seek and all nine kinds of range scan on the edited tree equal the reference. The model is the value-level overlay (committed tree with edited, possibly emptied leaves; branch entries untouched before commit). Tie: histories in read-after-every-op mode (scan, seek, range, get, buckets, kv_pairs, next_int after each mutation; directed emptying of each leaf and inserts at leaf boundaries) run on the real code and compared with the Lean specification.",
+        "design_ref": "DESIGN.md §5 C07, §3.5",
+        "note": COMMON_NOTE + "Bucket creation/deletion inside the transaction are leaf edits of the parent plus cache bookkeeping; the cache is modelled as part of the nested value (unobservable difference). A cursor kept across a mutation is unspecified and not generated.",
+    },
+    "C08": {
+        "category": "proof",
+        "technique": "Lean 4 theorems about the cursor stack machine (enumeration, after-the-end, seek, nine range bound kinds, filters, binary-search slot) on every tree; model tied to the code by differential query batteries on committed and mid-transaction buckets",
+        "text": "Proved for all trees / keys / bounds (Jamm/Props/C08.lean): a fresh cursor yields every entry exactly once in order and next() after the end keeps returning none (no ordering assumption needed); on well-formed trees seek reports presence and starts at the key or an immediate neighbour with every later entry following; Range yields exactly Spec.range for all 3x3 bound kinds incl. reversed / out-of-range; buckets()/kv_pairs() are filters. The model mirrors cursor.rs after the three fix: commits (D5, D6, D7). Tie: query batteries (every present key, gaps, below min, above max, leaf/branch boundaries x bound kinds, extra next() after exhaustion) on empty, single-leaf and multi-level buckets, committed and mid-transaction.",
+        "design_ref": "DESIGN.md §5 C08, §3.4",
+        "note": COMMON_NOTE + "Rust's binary_search_by_key is assumed correct on strictly ascending input (the model uses its specification, not the halving loop).",
     },
 }
 
